@@ -199,6 +199,17 @@ def impl_eval(c):
     x = bu.mk(c[1], c[2]); f = {'reduce_and': reduce_and, 'reduce_or': reduce_or, 'reduce_xor': reduce_xor}[k]
     return bu.run_read_fresh(lambda: f(x), x)        # the result is a value of its own: updating it in place changes no later result
   if k == 'clog2':
+    # history probe: earlier calls with arguments that compare (and hash) equal to N but are not ints -- float, Fraction, Decimal,
+    # bool -- take other paths of clog2 (its float fallback) and must not influence what clog2 returns for the int N afterwards
+    # (seed C05-13: a result memo keyed by the argument)
+    N = c[1]
+    if isinstance(N, int) and 0 < N < (1 << 200):
+      import fractions, decimal
+      for mk in (float, fractions.Fraction, decimal.Decimal):
+        try:
+          a = mk(N)
+          if a == N: clog2(a)
+        except Exception: pass
     return bu.run_int(lambda: clog2(c[1]))
   if k == 'vcd':
     x = bu.mk(c[1], c[2])
